@@ -1017,6 +1017,7 @@ def run(ctx):
     ev.assumptions = [
         "single-threaded; locmem media cache (built-in and Django-configured); classes stay alive and have unique import paths",
         "evictions happen between operations, never inside one render",
+        "related classes: single inheritance, inline js / css only, at most three classes per family",
     ]
 
 
